@@ -233,7 +233,7 @@ def run(chk):
         c = consts(['h1', 'h2'], ['a'], ['http', 'https'], ['def'], 2, 2, FIX_COPY, (200, 308))
         gfut.append(('exhaustive-schemes', 2, pool.submit(gen, c, timeout=1200)))
     # simulation, full alphabet, longer chains
-    for (mr, hops, num) in ((2, 4, 1200 if quick else 12000), (3, 5, 500 if quick else 8000)):
+    for (mr, hops, num) in ((2, 4, 1200 if quick else 8000), (3, 5, 500 if quick else 5000)):
         c = consts(['h1', 'h2', 'h3'], ['a', 'b'], ['http', 'https'], ['def', 'alt'], mr, hops, FIX_COPY)
         gfut.append(('simulate', mr, pool.submit(gen, c, start_hosts=('h1', 'h2', 'h3'), simulate=num,
                                                  seed=chk.seed + 7 + mr, depth=2 * hops + 2)))
@@ -295,7 +295,10 @@ def run(chk):
                 i, e = bad_send(t, m['badline'], [k for k in CLAUSES if CLAUSES[k] == clause][0])
                 sig = {'clause': clause}
                 if origin.startswith('text') and clause in ('TargetOK', 'WellFormed', 'Delivered', 'EndsOK'):
-                    sig['input'] = sc.get('text_class', 'text')
+                    cls = sc.get('text_class', 'text')
+                    if clause == 'TargetOK':     # only the components the request-target is made of
+                        cls = '+'.join(p for p in cls.split('+') if p.split('=')[0] in ('path', 'query')) or 'plain'
+                    sig['input'] = cls
                 if clause in ('OneHostOK', 'AuthOK', 'CookieOK', 'RefererOK', 'TargetOK', 'Delivered', 'WellFormed'):
                     # classify by how the offending request was made (first offending request of the trace)
                     sig['request'] = how_made(t, i) if i is not None else '?'
